@@ -1,4 +1,6 @@
 import Wal.Model.Wawk
+import Wal.Model.WawkParse
+import Wal.Model.Printer
 import Wal.Model.Eval
 /-!
 # C20 — WAWK transpiles with AWK meaning; `wawk -o` output is the executed program
@@ -19,8 +21,15 @@ constructors of `TreeToWal` (`Wawk.transpile`) and of the evaluator's `&&` (`and
 * `transpile_bin`, `transpile_chain_head` — an operator node transpiles to the operator applied to exactly two
   operands, the whole left part being the first (no re-association, no n-ary flattening).
 
-**Partial**: the Earley parser (text → tree) is not modelled in Lean, so "the parser produces the reference reading"
-is decided by the oracle and the correspondence (generated programs, reference evaluation), not by a theorem; the
+* `parse_pp`, `parse_pp_at` — **grouping**: on the token-level model of the stratified operator grammar
+  (`Wal/Model/WawkParse.lean`: `or_s > and_s > comp > sum_s > mul > neg > atom`, left-recursive rules as loops) every
+  expression tree `e`, written with parentheses exactly where the stated rules (left to right; `* /` over `+ -`;
+  `&&` over `||`; comparisons below arithmetic; `!` tightest) would otherwise read the text differently, parses back to
+  `e` for every sufficiently large fuel — by induction over `e`, all sizes and nestings; the instances at the end show
+  `6 - i + 3 * 3` = `(6 - i) + (3 * 3)` and `a || b && c` = `a || (b && c)`.
+
+**Partial**: Lark's Earley engine itself is not modelled; that `parse_wawk` agrees with the token-level model
+(`parseExpr`) is the correspondence's business (generated operator expressions through both, harness/c20.py). The
 second sentence of the property (the `-o` text reads back as the executed program) is C11's round-trip theorem
 applied to the emitted forms, and is exercised on every generated program.
 -/
@@ -141,5 +150,308 @@ example : (emit [progEx[0], progEx[2]]).map (·.length) = some 2 := by decide +k
 example : evalA (fun s => match s with | .int k => k | _ => 4)
     (chainl (.atom (.int 6)) [(.sub, .atom (sA "i")), (.add, .bin .mul (.atom (.int 3)) (.atom (.int 3)))]) = 11 := by
   decide +kernel
+
+/-! ## grouping: the stratified operator grammar on tokens -/
+
+/-- the next token does not continue an operator chain of level ≥ ℓ -/
+def stops (ℓ : Nat) : List Tok → Bool
+  | .op o :: _ => o.lvl < ℓ
+  | _ => true
+
+theorem stops_mono {ℓ k : Nat} {ts : List Tok} (h : stops ℓ ts = true) (hk : ℓ ≤ k) : stops k ts = true := by
+  cases ts with
+  | nil => rfl
+  | cons t r =>
+    cases t <;> simp_all [stops]
+    omega
+
+theorem lvl_pos (o : POp) : 1 ≤ o.lvl ∧ o.lvl ≤ 5 := by cases o <;> simp [POp.lvl]
+
+theorem loop_stop (m ℓ : Nat) (a : PE) (ts : List Tok) (h : stops ℓ ts = true) :
+    pLoop (m + 1) ℓ a ts = some (a, ts) := by
+  cases ts with
+  | nil => simp [pLoop]
+  | cons t r =>
+    cases t <;> simp_all [pLoop, stops]
+    omega
+
+theorem cmp_stop (m : Nat) (a : PE) (ts : List Tok) (h : stops 3 ts = true) :
+    pCmp (m + 1) a ts = some (a, ts) := by
+  cases ts with
+  | nil => simp [pCmp]
+  | cons t r =>
+    cases t <;> simp_all [pCmp, stops]
+    omega
+
+theorem pLevel_succ (n ℓ : Nat) (ts : List Tok) :
+    pLevel (n + 1) ℓ ts = if 6 ≤ ℓ then pUnary n ts else
+      match pLevel n (ℓ + 1) ts with
+      | none => none
+      | some (a, r) => if ℓ == 3 then pCmp n a r else pLoop n ℓ a r := by
+  simp only [pLevel]
+  split
+  · rfl
+  · cases pLevel n (ℓ + 1) ts <;> rfl
+
+theorem pLoop_op (n ℓ : Nat) (a : PE) (o : POp) (r : List Tok) :
+    pLoop (n + 1) ℓ a (.op o :: r) = if o.lvl == ℓ then
+      (match pLevel n (ℓ + 1) r with
+        | some (b, r') => pLoop n ℓ (.bin o a b) r'
+        | none => none)
+      else some (a, .op o :: r) := by
+  simp only [pLoop]
+  split
+  · cases pLevel n (ℓ + 1) r <;> rfl
+  · rfl
+
+theorem pCmp_op (n : Nat) (a : PE) (o : POp) (r : List Tok) :
+    pCmp (n + 1) a (.op o :: r) = if o.lvl == 3 then
+      (match pLevel n 4 r with
+        | some (b, r') => some (.bin o a b, r')
+        | none => none)
+      else some (a, .op o :: r) := by
+  simp only [pCmp]
+  split
+  · cases pLevel n 4 r <;> rfl
+  · rfl
+
+/-- "for every sufficiently large fuel" -/
+def Ev (f : Nat → Prop) : Prop := ∃ n0, ∀ n, n0 ≤ n → f n
+
+/-- descend one level: a level-(ℓ+1) parse whose continuation does not continue level ℓ is the level-ℓ parse -/
+theorem descend (ℓ : Nat) (hℓ : ℓ < 6) (ts rest : List Tok) (e : PE) (hs : stops ℓ rest = true)
+    (h : Ev fun n => pLevel n (ℓ + 1) ts = some (e, rest)) : Ev fun n => pLevel n ℓ ts = some (e, rest) := by
+  obtain ⟨m0, h⟩ := h
+  refine ⟨m0 + 2, fun n hn => ?_⟩
+  obtain ⟨m, rfl⟩ : ∃ m, n = m + 2 := ⟨n - 2, by omega⟩
+  have h1 : pLevel (m + 1) (ℓ + 1) ts = some (e, rest) := h (m + 1) (by omega)
+  have : ¬ 6 ≤ ℓ := by omega
+  rw [pLevel_succ, if_neg this, h1]
+  by_cases h3 : ℓ = 3
+  · subst h3; simp [cmp_stop m e rest hs]
+  · have : (ℓ == 3) = false := by simp [h3]
+    simp [this, loop_stop m ℓ e rest hs]
+
+/-- descend several levels -/
+theorem descend_to (k ℓ : Nat) (hk : ℓ + k ≤ 6) (ts rest : List Tok) (e : PE) (hs : stops ℓ rest = true)
+    (h : Ev fun n => pLevel n (ℓ + k) ts = some (e, rest)) : Ev fun n => pLevel n ℓ ts = some (e, rest) := by
+  induction k with
+  | zero => simpa using h
+  | succ k ih =>
+    apply ih (by omega)
+    apply descend (ℓ + k) (by omega) ts rest e (stops_mono hs (by omega))
+    simpa [Nat.add_assoc] using h
+
+theorem descend_from6 (ℓ : Nat) (h6 : ℓ ≤ 6) (ts rest : List Tok) (e : PE) (hs : stops ℓ rest = true)
+    (h : Ev fun n => pLevel n 6 ts = some (e, rest)) : Ev fun n => pLevel n ℓ ts = some (e, rest) := by
+  obtain ⟨k, hk⟩ : ∃ k, ℓ + k = 6 := ⟨6 - ℓ, by omega⟩
+  apply descend_to k ℓ (by omega) ts rest e hs
+  rw [hk]; exact h
+
+theorem unary_of_level6 (ts : List Tok) (r : Option (PE × List Tok))
+    (h : Ev fun n => pLevel n 6 ts = r) : Ev fun n => pUnary n ts = r := by
+  obtain ⟨m0, h⟩ := h
+  refine ⟨m0, fun n hn => ?_⟩
+  have : pLevel (n + 1) 6 ts = r := h (n + 1) (by omega)
+  rw [pLevel_succ] at this
+  simpa using this
+
+theorem level6_of_unary (ts : List Tok) (r : Option (PE × List Tok))
+    (h : Ev fun n => pUnary n ts = r) : Ev fun n => pLevel n 6 ts = r := by
+  obtain ⟨m0, h⟩ := h
+  refine ⟨m0 + 1, fun n hn => ?_⟩
+  obtain ⟨m, rfl⟩ : ∃ m, n = m + 1 := ⟨n - 1, by omega⟩
+  have : pUnary m ts = r := h m (by omega)
+  rw [pLevel_succ]
+  simpa using this
+
+/-- the text of a tree whose level is not ℓ is the same one level up -/
+theorem pp_succ (ℓ : Nat) (e : PE) (h : e.lvl ≠ ℓ) : pp ℓ e = pp (ℓ + 1) e := by
+  cases e with
+  | atom s => rfl
+  | neg a => rfl
+  | bin o a b =>
+    simp only [PE.lvl] at h
+    simp only [pp]
+    by_cases h1 : o.lvl < ℓ
+    · have : o.lvl < ℓ + 1 := by omega
+      simp [h1, this]
+    · have : ¬ o.lvl < ℓ + 1 := by omega
+      simp [h1, this]
+
+/-- what is proved about each tree: `ParsesBack` the text parses back at every level; `LoopCont` parsing the text at a chain level
+    and continuing the loop equals continuing the loop with the tree as the accumulated left operand -/
+def ParsesBack (e : PE) : Prop :=
+  ∀ ℓ rest, 1 ≤ ℓ → ℓ ≤ 6 → stops ℓ rest = true → Ev fun n => pLevel n ℓ (pp ℓ e ++ rest) = some (e, rest)
+
+def LoopCont (e : PE) : Prop :=
+  ∀ q tail res, 1 ≤ q → q ≤ 5 → q ≠ 3 → stops (q + 1) tail = true →
+    (Ev fun n => pLoop n q e tail = some res) → Ev fun n => pLevel n q (pp q e ++ tail) = some res
+
+/-- a tree that is not a chain link of level q: parse it one level up, then the loop continues with it -/
+theorem loopCont_of_parsesBack_nonchain (e : PE) (hP : ParsesBack e) (q : Nat) (tail : List Tok) (res : PE × List Tok)
+    (hq1 : 1 ≤ q) (hq5 : q ≤ 5) (hq3 : q ≠ 3) (hne : e.lvl ≠ q) (hs : stops (q + 1) tail = true)
+    (h : Ev fun n => pLoop n q e tail = some res) : Ev fun n => pLevel n q (pp q e ++ tail) = some res := by
+  obtain ⟨m0, h0⟩ := hP (q + 1) tail (by omega) (by omega) hs
+  obtain ⟨m1, h1⟩ := h
+  refine ⟨m0 + m1 + 1, fun n hn => ?_⟩
+  obtain ⟨m, rfl⟩ : ∃ m, n = m + 1 := ⟨n - 1, by omega⟩
+  have a1 : pLevel m (q + 1) (pp (q + 1) e ++ tail) = some (e, tail) := h0 m (by omega)
+  have a2 : pLoop m q e tail = some res := h1 m (by omega)
+  have : ¬ 6 ≤ q := by omega
+  have h3 : (q == 3) = false := by simp [hq3]
+  rw [pp_succ q e hne, pLevel_succ, if_neg this, a1]
+  simp [h3, a2]
+
+theorem parsesBack_atom (s : Sx) : ParsesBack (.atom s) := by
+  intro ℓ rest h1 h6 hs
+  have base : Ev fun n => pLevel n 6 (pp ℓ (.atom s) ++ rest) = some (.atom s, rest) := by
+    apply level6_of_unary
+    exact ⟨1, fun n hn => by obtain ⟨m, rfl⟩ : ∃ m, n = m + 1 := ⟨n - 1, by omega⟩; simp [pp, pUnary]⟩
+  exact descend_from6 ℓ h6 _ rest _ hs base
+
+theorem parsesBack_neg (a : PE) (ha : ParsesBack a) : ParsesBack (.neg a) := by
+  intro ℓ rest h1 h6 hs
+  have base : Ev fun n => pLevel n 6 (pp ℓ (.neg a) ++ rest) = some (.neg a, rest) := by
+    apply level6_of_unary
+    obtain ⟨m0, h0⟩ := unary_of_level6 _ _ (ha 6 rest (by omega) (by omega) (stops_mono hs h6))
+    refine ⟨m0 + 1, fun n hn => ?_⟩
+    obtain ⟨m, rfl⟩ : ∃ m, n = m + 1 := ⟨n - 1, by omega⟩
+    have : pUnary m (pp 6 a ++ rest) = some (a, rest) := h0 m (by omega)
+    simp [pp, pUnary, this]
+  exact descend_from6 ℓ h6 _ rest _ hs base
+
+/-- the parenthesised text, from the unparenthesised parse at level 1 -/
+theorem paren_case (e : PE) (body : List Tok) (ℓ : Nat) (rest : List Tok) (h6 : ℓ ≤ 6) (hs : stops ℓ rest = true)
+    (h : Ev fun n => pLevel n 1 (body ++ .rp :: rest) = some (e, .rp :: rest)) :
+    Ev fun n => pLevel n ℓ ((.lp :: body ++ [.rp]) ++ rest) = some (e, rest) := by
+  have base : Ev fun n => pLevel n 6 ((.lp :: body ++ [.rp]) ++ rest) = some (e, rest) := by
+    apply level6_of_unary
+    obtain ⟨m0, h0⟩ := h
+    refine ⟨m0 + 1, fun n hn => ?_⟩
+    obtain ⟨m, rfl⟩ : ∃ m, n = m + 1 := ⟨n - 1, by omega⟩
+    have : pLevel m 1 (body ++ .rp :: rest) = some (e, .rp :: rest) := h0 m (by omega)
+    simp only [List.cons_append, List.append_assoc, List.singleton_append, pUnary]
+    simp [this]
+  exact descend_from6 ℓ h6 _ rest _ hs base
+
+theorem loopCont_atom (s : Sx) : LoopCont (.atom s) := by
+  intro q tail res h1 h5 h3 hs h
+  exact loopCont_of_parsesBack_nonchain _ (parsesBack_atom s) q tail res h1 h5 h3 (by simp [PE.lvl]; omega) hs h
+
+theorem loopCont_neg (a : PE) (ha : ParsesBack a) : LoopCont (.neg a) := by
+  intro q tail res h1 h5 h3 hs h
+  exact loopCont_of_parsesBack_nonchain _ (parsesBack_neg a ha) q tail res h1 h5 h3 (by simp [PE.lvl]; omega) hs h
+
+theorem pp_bin_noparen (ℓ : Nat) (o : POp) (a b : PE) (h : ¬ o.lvl < ℓ) :
+    pp ℓ (.bin o a b) = pp (if o.lvl == 3 then 4 else o.lvl) a ++ .op o :: pp (o.lvl + 1) b := by
+  simp [pp, h]
+
+theorem pp_bin_paren (ℓ : Nat) (o : POp) (a b : PE) (h : o.lvl < ℓ) :
+    pp ℓ (.bin o a b) = .lp :: (pp (if o.lvl == 3 then 4 else o.lvl) a ++ .op o :: pp (o.lvl + 1) b) ++ [.rp] := by
+  simp [pp, h]
+
+theorem loopCont_bin (o : POp) (a b : PE) (hP : ParsesBack (.bin o a b)) (hb : ParsesBack b) (ha : LoopCont a) : LoopCont (.bin o a b) := by
+  intro q tail res h1 h5 h3 hs h
+  by_cases hc : o.lvl = q
+  · -- a link of the chain of level q
+    have hnp : ¬ o.lvl < q := by omega
+    have h3' : (o.lvl == 3) = false := by simp [hc, h3]
+    rw [pp_bin_noparen q o a b hnp, h3', hc]
+    simp only [Bool.false_eq_true, if_false, List.append_assoc, List.cons_append]
+    apply ha q (.op o :: (pp (q + 1) b ++ tail)) res h1 h5 h3
+    · simp [stops, hc]
+    · obtain ⟨m0, h0⟩ := hb (q + 1) tail (by omega) (by omega) hs
+      obtain ⟨m1, h1'⟩ := h
+      refine ⟨m0 + m1 + 1, fun n hn => ?_⟩
+      obtain ⟨m, rfl⟩ : ∃ m, n = m + 1 := ⟨n - 1, by omega⟩
+      have a1 : pLevel m (q + 1) (pp (q + 1) b ++ tail) = some (b, tail) := h0 m (by omega)
+      have a2 : pLoop m q (.bin o a b) tail = some res := h1' m (by omega)
+      rw [pLoop_op]
+      simp [hc, a1, a2]
+  · exact loopCont_of_parsesBack_nonchain _ hP q tail res h1 h5 h3 (by simpa [PE.lvl] using hc) hs h
+
+/-- the unparenthesised text of a binary node parses back at its own level -/
+theorem bin_at_level (o : POp) (a b : PE) (ha : ParsesBack a) (hb : ParsesBack b) (hEa : LoopCont a) (rest : List Tok)
+    (hs : stops o.lvl rest = true) :
+    Ev fun n => pLevel n o.lvl ((pp (if o.lvl == 3 then 4 else o.lvl) a ++ .op o :: pp (o.lvl + 1) b) ++ rest)
+      = some (.bin o a b, rest) := by
+  have ⟨hl1, hl5⟩ := lvl_pos o
+  by_cases h3 : o.lvl = 3
+  · -- comparison: sum_s comp_op sum_s
+    simp only [h3, beq_self_eq_true, if_true, List.append_assoc, List.cons_append]
+    rw [h3] at hs
+    obtain ⟨m0, h0⟩ := ha 4 (.op o :: (pp 4 b ++ rest)) (by omega) (by omega) (by simp [stops, h3])
+    obtain ⟨m1, h1⟩ := hb 4 rest (by omega) (by omega) (stops_mono hs (by omega))
+    refine ⟨m0 + m1 + 2, fun n hn => ?_⟩
+    obtain ⟨m, rfl⟩ : ∃ m, n = m + 2 := ⟨n - 2, by omega⟩
+    have a1 : pLevel (m + 1) 4 (pp 4 a ++ .op o :: (pp 4 b ++ rest)) = some (a, .op o :: (pp 4 b ++ rest)) := h0 (m + 1) (by omega)
+    have a2 : pLevel m 4 (pp 4 b ++ rest) = some (b, rest) := h1 m (by omega)
+    rw [pLevel_succ]
+    simp only [show ¬ 6 ≤ 3 by omega, if_false, a1, beq_self_eq_true, if_true]
+    rw [pCmp_op]
+    simp [h3, a2]
+  · have h3' : (o.lvl == 3) = false := by simp [h3]
+    simp only [h3', Bool.false_eq_true, if_false, List.append_assoc, List.cons_append]
+    apply hEa o.lvl (.op o :: (pp (o.lvl + 1) b ++ rest)) (.bin o a b, rest) hl1 hl5 h3
+    · simp [stops]
+    · obtain ⟨m0, h0⟩ := hb (o.lvl + 1) rest (by omega) (by omega) (stops_mono hs (by omega))
+      refine ⟨m0 + 2, fun n hn => ?_⟩
+      obtain ⟨m, rfl⟩ : ∃ m, n = m + 2 := ⟨n - 2, by omega⟩
+      have a1 : pLevel (m + 1) (o.lvl + 1) (pp (o.lvl + 1) b ++ rest) = some (b, rest) := h0 (m + 1) (by omega)
+      rw [pLoop_op]
+      simp [a1, loop_stop m o.lvl _ rest hs]
+
+theorem parsesBack_bin (o : POp) (a b : PE) (ha : ParsesBack a) (hb : ParsesBack b) (hEa : LoopCont a) : ParsesBack (.bin o a b) := by
+  have ⟨hl1, hl5⟩ := lvl_pos o
+  -- without parentheses, at every level up to the operator's own
+  have N : ∀ ℓ rest, 1 ≤ ℓ → ℓ ≤ o.lvl → stops ℓ rest = true →
+      Ev fun n => pLevel n ℓ ((pp (if o.lvl == 3 then 4 else o.lvl) a ++ .op o :: pp (o.lvl + 1) b) ++ rest) = some (.bin o a b, rest) := by
+    intro ℓ rest h1 hle hs
+    obtain ⟨k, hk⟩ : ∃ k, ℓ + k = o.lvl := ⟨o.lvl - ℓ, by omega⟩
+    apply descend_to k ℓ (by omega) _ rest _ hs
+    rw [hk]
+    exact bin_at_level o a b ha hb hEa rest (stops_mono hs hle)
+  intro ℓ rest h1 h6 hs
+  by_cases hp : o.lvl < ℓ
+  · rw [pp_bin_paren ℓ o a b hp]
+    apply paren_case _ _ ℓ rest h6 hs
+    exact N 1 (.rp :: rest) (by omega) hl1 rfl
+  · rw [pp_bin_noparen ℓ o a b hp]
+    exact N ℓ rest h1 (by omega) hs
+
+theorem parsesBack_and_loopCont (e : PE) : ParsesBack e ∧ LoopCont e := by
+  induction e with
+  | atom s => exact ⟨parsesBack_atom s, loopCont_atom s⟩
+  | neg a ih => exact ⟨parsesBack_neg a ih.1, loopCont_neg a ih.1⟩
+  | bin o a b iha ihb =>
+    have hP := parsesBack_bin o a b iha.1 ihb.1 iha.2
+    exact ⟨hP, loopCont_bin o a b hP ihb.1 iha.2⟩
+
+/-- **the grammar reads every text with the stated grouping**: the text of `e` with exactly the necessary
+    parentheses parses back to `e` and nothing is left over -/
+theorem parse_pp (e : PE) : Ev fun n => pLevel n 1 (pp 1 e) = some (e, []) := by
+  have := (parsesBack_and_loopCont e).1 1 [] (by omega) (by omega) rfl
+  simpa using this
+
+/-- in any operand position and before any continuation that does not extend the chain -/
+theorem parse_pp_at (e : PE) (ℓ : Nat) (rest : List Tok) (h1 : 1 ≤ ℓ) (h6 : ℓ ≤ 6) (hs : stops ℓ rest = true) :
+    Ev fun n => pLevel n ℓ (pp ℓ e ++ rest) = some (e, rest) :=
+  (parsesBack_and_loopCont e).1 ℓ rest h1 h6 hs
+
+
+/-! instances through the whole-expression entry point used by the correspondence (`parseExpr`, concrete fuel) -/
+
+def tA (n : String) : Tok := .atom (.sym n Option.none)
+def tI (i : Int) : Tok := .atom (.int i)
+def shown (ts : List Tok) : Option String := (parseExpr ts).bind (fun e => walStrCode e.toSx)
+
+example : shown [tI 6, .op .sub, tA "i", .op .add, tI 3, .op .mul, tI 3] = some "(+ (- 6 i) (* 3 3))" := by decide +kernel
+example : shown [tA "a", .op .or, tA "b", .op .and, tA "c"] = some "(|| a (&& b c))" := by decide +kernel
+example : shown [tA "a", .op .sub, .lp, tA "b", .op .sub, tA "c", .rp] = some "(- a (- b c))" := by decide +kernel
+example : shown [.bang, tA "a", .op .and, tA "x", .op .add, tI 1, .op .lt, tA "y", .op .mul, tI 2] = some "(&& (! a) (< (+ x 1) (* y 2)))" := by
+  decide +kernel
+example : shown [tA "a", .op .lt, tA "b", .op .lt, tA "c"] = Option.none ∧ shown [tA "a", .op .add] = Option.none ∧
+    shown [.lp, tA "a"] = Option.none ∧ shown [tA "a", tA "b"] = Option.none := by decide +kernel
 
 end Wal.C20
